@@ -86,6 +86,7 @@ var tokenSets = map[string][]string{
 	"inlines":    {"*", "_", "[", "](", ")", "`", "a", " ", "\n", "!", "<", ">"},
 	"inlines9":   {"*", "[", "](", ")", "`", "a", " ", "\n", "!"},
 	"blocks2":    {"# ", "---", "\n", "a", "1. ", "\t", "<div>", "[a]: b", "|", "~~~"},
+	"nestlinks":  {"[", "![", "*", "[b](c)", "](x)"},
 }
 
 // templates: seed documents with a window of symbolic bytes (T(F) of DESIGN 1.8).
@@ -411,8 +412,10 @@ func planC05(tier string, seed int64) (*Plan, error) {
 	// table and setext shapes (the InsertAfter sites) over small alphabets
 	jobs = append(jobs, job("H_c05_parse", "cfg", gfm, "n", 5, "alpha", "a|-:\n"))
 	jobs = append(jobs, job("H_c05_parse", "cfg", core, "n", 6, "alpha", "a-=\n >"))
+	jobs = append(jobs, alphaJobs("H_c05_parse", []string{"blocks"}, 6, []string{core})...)
+	jobs = append(jobs, tokenJobs("H_c05_parse", []string{"nestlinks"}, 7, []string{core})...)
 	p.Jobs = jobs
-	b["extra"] = "S(5,{a,|,-,:,LF}) with GFM (tables) and S(6,{a,-,=,LF,space,>}) core (Setext fallbacks)"
+	b["extra"] = "S(5,{a,|,-,:,LF}) with GFM (tables), S(6,{a,-,=,LF,space,>}) and S(6,blocks) core, every sequence of 7 tokens from 'nestlinks' (nested link/image/emphasis constructs)"
 	p.Bounds = b
 	p.Rule = "every node of every tree returned by Parse on every path is checked through the public ast.Node accessors"
 	return p, nil
